@@ -1,14 +1,19 @@
 #!/bin/sh
-# all_mutants.sh [ID-prefix]: apply every seeded change to /repo in turn, run the
-# quick check of its property, undo. Prints one line per change.
+# all_mutants.sh [ID-prefix]: apply every seeded change in turn to a scratch
+# worktree of /repo HEAD (never to /repo itself), run the quick check of its
+# property against it, undo. Prints one line per change.
 cd /verif
+WT=${WT:-/tmp/wt_allmut}
+git -C /repo worktree remove --force "$WT" 2>/dev/null
+git -C /repo worktree add -q --detach "$WT" HEAD || exit 3
 for d in seeded/${1:-}*/; do
   id=$(basename "$d"); prop=${id%%_*}
-  if ! git -C /repo apply --check "/verif/$d/patch.diff" 2>/dev/null; then
+  if ! git -C "$WT" apply --check "/verif/$d/patch.diff" 2>/dev/null; then
     echo "$id: patch does not apply on the current /repo HEAD"; continue
   fi
-  git -C /repo apply "/verif/$d/patch.diff"
-  out=$(./check "$prop" --no-evidence 2>&1 | grep -E "^(VIOLATION|HARNESS-ERROR)" | head -3 | sed 's/replay=.*replays\///' | tr '\n' ' ')
-  git -C /repo checkout -- .
+  git -C "$WT" apply "/verif/$d/patch.diff"
+  out=$(VERIF_REPO="$WT" ./check "$prop" --no-evidence 2>&1 | grep -E "^(VIOLATION|HARNESS-ERROR)" | head -3 | sed 's/replay=.*replays\///' | tr '\n' ' ')
+  git -C "$WT" checkout -- .
   echo "$id: ${out:-MISSED}"
 done
+git -C /repo worktree remove --force "$WT"
